@@ -95,10 +95,18 @@ type lockset struct {
 	added   map[string]lmode
 	removed map[string]bool
 	fresh   bool // true: the base is the empty set (goroutine / async closure), not the entry set
+	// pub: expressions (local `x` or field path `w.enc`) whose pointee was handed to other goroutines on
+	// SOME path to this point (may-information, union at joins): sync.Pool.Put(x), atomic.Value.Store(x), ch <- x
+	pub map[string]pubInfo
+}
+
+type pubInfo struct {
+	container string // "global:partitionsCache", "compress/zstd.Codec.encoderPool", "chan:<expr>"
+	anyUse    bool   // Pool.Put: the object is no longer ours, any later use counts; otherwise only writes
 }
 
 func newLS(fresh bool) *lockset {
-	return &lockset{added: map[string]lmode{}, removed: map[string]bool{}, fresh: fresh}
+	return &lockset{added: map[string]lmode{}, removed: map[string]bool{}, fresh: fresh, pub: map[string]pubInfo{}}
 }
 func (l *lockset) clone() *lockset {
 	n := newLS(l.fresh)
@@ -107,6 +115,9 @@ func (l *lockset) clone() *lockset {
 	}
 	for k := range l.removed {
 		n.removed[k] = true
+	}
+	for k, v := range l.pub {
+		n.pub[k] = v
 	}
 	return n
 }
@@ -129,6 +140,12 @@ func meet(a, b *lockset) *lockset {
 	}
 	for k := range b.removed {
 		n.removed[k] = true
+	}
+	for k, v := range a.pub {
+		n.pub[k] = v
+	}
+	for k, v := range b.pub {
+		n.pub[k] = v
 	}
 	return n
 }
@@ -342,7 +359,9 @@ func extractAccesses(repo, root string) error {
 				}
 				w := &walker{x: x, p: p, fn: fn, fname: fn.name, ctor: map[types.Object]bool{}, deferred: map[string]lmode{}, firstGo: firstGoPos(fd.Body)}
 				ls := newLS(false)
-				w.block(fd.Body.List, ls)
+				if end, term := w.block(fd.Body.List, ls); !term {
+					w.retained(end, fd.Body.Rbrace)
+				}
 			}
 		}
 	}
@@ -502,6 +521,8 @@ func (w *walker) stmt(s ast.Stmt, ls *lockset) (*lockset, bool) {
 		for i, l := range s.Lhs {
 			if s.Tok != token.ASSIGN && s.Tok != token.DEFINE {
 				w.expr(l, ls, mRead)
+			} else if k := exprKey(l); k != "" {
+				delete(ls.pub, k) // overwritten: the name no longer refers to the published object
 			}
 			w.expr(l, ls, mWrite)
 			if s.Tok == token.DEFINE || s.Tok == token.ASSIGN {
@@ -539,6 +560,7 @@ func (w *walker) stmt(s ast.Stmt, ls *lockset) (*lockset, bool) {
 		for _, r := range s.Results {
 			w.expr(r, ls, mRead)
 		}
+		w.retained(ls, s.Pos())
 		return ls, true
 	case *ast.BranchStmt:
 		// break/continue/goto: leave the straight-line flow (treated like a terminator of this arm;
@@ -607,6 +629,7 @@ func (w *walker) stmt(s ast.Stmt, ls *lockset) (*lockset, bool) {
 	case *ast.SendStmt:
 		w.expr(s.Chan, ls, mRead)
 		w.expr(s.Value, ls, mRead)
+		w.publish(s.Value, "chan:"+exprKey(s.Chan), false, ls)
 		return ls, false
 	case *ast.GoStmt:
 		w.call(s.Call, ls, "go")
@@ -880,6 +903,9 @@ func derefStruct(t types.Type) (*types.Struct, bool) {
 }
 
 func (w *walker) expr(e ast.Expr, ls *lockset, mode amode) {
+	if len(ls.pub) > 0 && e != nil {
+		w.pubUse(e, ls, mode)
+	}
 	switch e := e.(type) {
 	case nil:
 	case *ast.BasicLit:
@@ -1251,6 +1277,15 @@ func (w *walker) call(c *ast.CallExpr, ls *lockset, kind string) {
 			}
 		}
 		w.closure(fl, cls)
+	}
+	// publication of a pointer-like value: from here on its pointee is shared with other goroutines
+	if kind == "" && len(c.Args) == 1 && callee != nil && recv != nil {
+		switch name {
+		case "sync.Pool.Put":
+			w.publish(c.Args[0], w.containerName(recv), true, ls)
+		case "sync/atomic.Value.Store", "sync/atomic.Pointer.Store":
+			w.publish(c.Args[0], w.containerName(recv), false, ls)
+		}
 	}
 	// interface method call: every declared method of that name whose receiver type implements the
 	// interface may be the callee (class-hierarchy approximation) and gets a call edge with this lockset
@@ -1943,5 +1978,121 @@ func (x *accExtractor) aliasPrepass() {
 			}
 			return true
 		})
+	}
+}
+
+// exprKey renders a local variable or a field path (x, w.enc, w.c.pool) — "" for anything else
+func exprKey(e ast.Expr) string {
+	switch u := e.(type) {
+	case *ast.Ident:
+		if u.Name == "_" || u.Name == "nil" {
+			return ""
+		}
+		return u.Name
+	case *ast.ParenExpr:
+		return exprKey(u.X)
+	case *ast.SelectorExpr:
+		if k := exprKey(u.X); k != "" {
+			return k + "." + u.Sel.Name
+		}
+	}
+	return ""
+}
+
+func pointerLike(t types.Type) bool {
+	if t == nil {
+		return false
+	}
+	switch t.Underlying().(type) {
+	case *types.Pointer, *types.Slice, *types.Map, *types.Interface:
+		return true
+	}
+	return false
+}
+
+func (w *walker) containerName(recv ast.Expr) string {
+	if id, ok := recv.(*ast.Ident); ok {
+		if v, ok := w.p.info.Uses[id].(*types.Var); ok && v.Pkg() != nil && v.Parent() == v.Pkg().Scope() {
+			if p := w.x.ourPkgs[v.Pkg()]; p != nil && p.dir != "." {
+				return "global:" + p.dir + "." + v.Name()
+			}
+			return "global:" + v.Name()
+		}
+	}
+	if id := w.lockID(recv); id != "" {
+		return id
+	}
+	return exprKey(recv)
+}
+
+// publish: Pool.Put(x) / atomic.Value.Store(x) / ch <- x with a pointer-like x named by a local or a field path
+func (w *walker) publish(arg ast.Expr, container string, anyUse bool, ls *lockset) {
+	k := exprKey(arg)
+	if k == "" || !pointerLike(w.p.info.TypeOf(arg)) {
+		return
+	}
+	if id, ok := arg.(*ast.Ident); ok {
+		if _, isVar := w.p.info.Uses[id].(*types.Var); !isVar {
+			return
+		}
+	}
+	ls.pub[k] = pubInfo{container: container, anyUse: anyUse}
+}
+
+func (w *walker) pubRow(container string, pos token.Pos, ls *lockset) {
+	p := w.x.fset.Position(pos)
+	rel, _ := filepath.Rel(w.x.repo, p.Filename)
+	w.x.rows = append(w.x.rows, &accRow{Field: "pointee:" + container, Write: true, Phase: "published", File: rel, Line: p.Line,
+		Func: w.fname, ls: ls.clone(), owner: w.fn})
+}
+
+// pubUse: a mention of a published name.  After Pool.Put every use counts (the object may already belong to
+// another goroutine); after an atomic Store / channel send only writes through the name do (readers of the
+// shared pointee are legitimate).  Rows go to the pseudo-field "pointee:<container>" as writes, so an
+// unlocked one conflicts with itself (the same statement run by two goroutines, or by the new owner).
+func (w *walker) pubUse(e ast.Expr, ls *lockset, mode amode) {
+	b := e
+	through := false
+	for {
+		switch u := b.(type) {
+		case *ast.ParenExpr:
+			b = u.X
+			continue
+		case *ast.IndexExpr:
+			b, through = u.X, true
+			continue
+		case *ast.SliceExpr:
+			b = u.X
+			continue
+		case *ast.StarExpr:
+			b, through = u.X, true
+			continue
+		}
+		break
+	}
+	k := exprKey(b)
+	if k == "" {
+		return
+	}
+	// the name itself or a field of the published object (x.f = …)
+	for key, info := range ls.pub {
+		isField := strings.HasPrefix(k, key+".")
+		if k != key && !isField {
+			continue
+		}
+		write := (mode == mWrite || mode == mAddr) && (through || isField)
+		if info.anyUse || write {
+			w.pubRow(info.container, e.Pos(), ls)
+		}
+	}
+}
+
+// retained: at a return, a FIELD that still refers to an object given to a sync.Pool keeps it reachable for
+// the next call (double Put / use after Put across calls)
+func (w *walker) retained(ls *lockset, pos token.Pos) {
+	for k, info := range ls.pub {
+		if info.anyUse && strings.Contains(k, ".") {
+			w.pubRow(info.container, pos, ls)
+		}
 	}
 }
